@@ -326,6 +326,11 @@ func (c *compiler) compile() (WarriorData, error) {
 	return c.metadata, nil
 }
 
+// maxForPasses bounds the expand-until-no-FOR loop in CompileWarrior. Each
+// pass expands one FOR block, so this is also the number of FOR expansions
+// (sequential blocks plus repeated inner blocks) a warrior may need.
+const maxForPasses = 1000
+
 func CompileWarrior(r io.Reader, config SimulatorConfig) (WarriorData, error) {
 	lexer := newLexer(r)
 	tokens, err := lexer.Tokens()
@@ -351,7 +356,7 @@ func CompileWarrior(r io.Reader, config SimulatorConfig) (WarriorData, error) {
 			break
 		}
 		depth++
-		if depth > 12 {
+		if depth > maxForPasses {
 			return WarriorData{}, fmt.Errorf("for loop depth exceeded")
 		}
 	}
